@@ -118,6 +118,20 @@ def run(ctx):
             ctx.distinct(("tdd", k, tuple(rn["args"][:3])))
             if r.cls != "ok" or r.stdout.decode().strip() != w:
                 ctx.violation("typeddata-domain-as-primary-type", dict(op="hdwallet " + " ".join(short(x, 40) for x in rn["args"]), document=doc), w, str(r)[:300])
+    # inputs are taken byte for byte: a leading byte-order mark, a trailing newline, NUL bytes are part of the data
+    for k, m2 in enumerate((b"\xef\xbb\xbfwith BOM", b"\xef\xbb\xbf", b"\xff\xfeUTF-16 BOM", b"trailing newline\n", b"\n", b"\x00\x00", b" padded ")):
+        p2 = os.path.join(tmp, "raw%d.bin" % k)
+        open(p2, "wb").write(m2)
+        for args, stdin in ((["hash", "data", p2], None), (["hash", "data", "-"], m2)):
+            hruns.append(dict(args=args, stdin=stdin))
+            want.append("0x" + pyref.keccak256(m2).hex())
+        for args, stdin in ((["hash", "message", p2], None), (["hash", "message", "-"], m2)):
+            hruns.append(dict(args=args, stdin=stdin))
+            want.append("0x" + pyref.keccak256(b"\x19Ethereum Signed Message:\n" + str(len(m2)).encode() + m2).hex())
+        hruns.append(dict(args=["hex", "encode", p2]))
+        want.append("0x" + m2.hex())
+    extra = ctx.cli(hruns[len(hout):])
+    hout += [r.stdout.decode().strip() if r.cls == "ok" else None for r in extra]
     for rn, got, w in zip(hruns, hout, want):
         ctx.count("hash-subcommands")
         ctx.distinct(("hash", tuple(rn["args"])))
